@@ -150,3 +150,51 @@ class Check:
         for name, counted, fl in self.floors:
             print("   floor %-40s counted=%d floor=%d" % (name, counted, fl))
         return 1 if new else 0
+
+
+class Sub:
+    """View of a Check used to *include* clauses of another property's rule module as necessary
+    conditions of this one: obligations whose rule id passes `accept` are recorded under
+    `<prefix>/<original rule id>`; everything else (including the other module's floors) is dropped."""
+
+    def __init__(self, chk, prefix, accept, instance_filter=None):
+        self.chk = chk
+        self.prefix = prefix
+        self.accept = accept
+        self.instance_filter = instance_filter
+        self.pid, self.tier, self.seed = chk.pid, chk.tier, chk.seed
+        self.analysed = {}
+        self.obligations = []          # local view (some modules take len() of it)
+        self.trusted, self.assumptions, self.notes = [], [], []
+        self.coverage_extra = {}
+        self.level = "other"
+        self.count = 0
+
+    def _use(self, rule, instance):
+        return self.accept(rule) and (self.instance_filter is None or self.instance_filter(instance))
+
+    def ok(self, rule, instance, detail="", site=None, nontrivial=True):
+        self.obligations.append(rule)
+        if self._use(rule, instance):
+            self.count += 1
+            self.chk.ok(self.prefix + "/" + rule, instance, detail, site, nontrivial)
+
+    def fail(self, rule, instance, message, site=None, path=None, key=None):
+        self.obligations.append(rule)
+        if self._use(rule, instance):
+            self.count += 1
+            self.chk.fail(self.prefix + "/" + rule, instance, message, site, path,
+                          (self.prefix + "/" + key) if key else None)
+
+    def require(self, cond, rule, instance, message_fail, detail_ok="", site=None, path=None, key=None, nontrivial=True):
+        if cond:
+            self.ok(rule, instance, detail_ok, site, nontrivial)
+        else:
+            self.fail(rule, instance, message_fail, site, path, key)
+        return cond
+
+    def floor(self, name, counted, floor):
+        pass
+
+    def note(self, s):
+        pass
